@@ -91,8 +91,9 @@ def runCost {D} (c : Cfg D) (proj : D → G) : Nat → St D → Nat
 def _root_.FontVerif.Interp.Cfg.maxCode {D} (c : Cfg D) : Nat := max c.font.size (max c.cv.size c.glyph.size)
 
 /-- the bound on the steps of ONE run-loop iteration: decode/dispatch, skip loops (≤ code length + 1), definition
-    table walks (≤ both table lengths), data-opcode loops (≤ 65536 + points of both zones + stack capacity) -/
+    table walks (≤ both table lengths), data-opcode loops (≤ 65536 + 4 × glyph points + twilight points + 2 × stack
+    capacity: `work` of Model/InterpLoops.lean with the stack within capacity) -/
 def perStep {D} (c : Cfg D) (nDefs : Nat) (g : G) : Nat :=
-  1 + (c.maxCode + 1) + nDefs + (65536 + g.glyphPts + g.twiPts + g.cap)
+  1 + (c.maxCode + 1) + nDefs + (65536 + 4 * g.glyphPts + g.twiPts + 2 * g.cap)
 
 end FontVerif.InterpCost
